@@ -2,9 +2,9 @@ SPECIFICATION BuildSpec
 CONSTANTS
   Graph <- SmallGraph
   MaxDepth = 3
-  MaxIds = 2
+  MaxIds = 1
   Pfx = {"p", "q:"}
-  Pool = {"a", "o", "z", "pz"}
+  Pool = {"z", "o"}
   MaxTicks = 2
   StartLibs = {1, 2, 3}
 INVARIANTS
